@@ -28,6 +28,7 @@ var initWhitelist = map[string]bool{
 	"bufio": true, "io/ioutil": false, "internal/bytealg": false, "unicode/utf16": true,
 	"slices": true, "maps": true, "cmp": true, "iter": true, "internal/stringslite": true,
 	"internal/itoa": true, "net/url": true, "path": true,
+	"vendor/golang.org/x/net/http/httpguts": true, "net/http/internal/ascii": true, "mime": false,
 }
 
 func NewMachine(prog *ssa.Program, sizes types.Sizes, extraInit []string) *Machine {
